@@ -56,6 +56,10 @@ class C03(Harness):
                      W(1, ['n'], what='bounds', precedence=precs[1]),
                      W(2, ['n'], onlychanged=False)]
             out.append({'slice': 'slot', 'specs': specs})
+        for q in (True, False):
+            specs = [W(0, ['n'], what='bounds', queued=q, onlychanged=False, action=['set', 'a', 1]),
+                     W(1, ['a'], onlychanged=False, action=['set', 'b', 2]), W(2, ['a', 'b'], onlychanged=True, precedence=1)]
+            out.append({'slice': 'slot', 'specs': specs})
         # 5 class-level watchers and class-level assignment
         for precs in itertools.product((0, 1), repeat=2):
             specs = [W(0, ['a'], target='cls', precedence=precs[0], onlychanged=False),
